@@ -2,6 +2,7 @@ package main
 
 import (
 	"fmt"
+	"github.com/spf13/viper"
 	"go/constant"
 	"go/token"
 	"go/types"
@@ -82,20 +83,21 @@ type Exec struct {
 	catching  int
 
 	// goroutines
-	gors      []*gor
-	cur       *gor
-	dead      bool
-	fatal     interface{}
-	switches  int
-	raceLog   []string
-	entVC     map[*MapEnt]vclock
-	permCache [][]*MapEnt
-	atomVC    map[*Cell]vclock
-	decided   map[string]bool
-	lastIn    ssa.Instruction
-	uf        map[string]BoolV
+	gors       []*gor
+	cur        *gor
+	dead       bool
+	fatal      interface{}
+	switches   int
+	raceLog    []string
+	entVC      map[*MapEnt]vclock
+	permCache  [][]*MapEnt
+	atomVC     map[*Cell]vclock
+	decided    map[string]bool
+	lastIn     ssa.Instruction
+	uf         map[string]BoolV
 	timerFired bool
-	hostDone  chan struct{}
+	vipers     map[*Cell]*viper.Viper
+	hostDone   chan struct{}
 }
 
 type frame struct {
